@@ -41,10 +41,14 @@ def gb_run(spec, ops):
     n = spec["n"]
     dm = bool(spec.get("dm"))
     c = Circuit(n, density_matrix=dm)
+    for q in spec.get("hs", []):  # non-deterministic outcomes: independent sampling shows
+        c.add(gates.H(q))
     for a, b in spec["cnots"]:
         c.add(gates.CNOT(a, b))
     ms = [c.add(gates.M(*qs)) for qs in spec["regs"]]
     be = NumpyBackend()
+    if spec.get("compiled"):
+        c.compile(be)
     old = _Global._backend
     _Global._backend = be
     results, shots, out, fbad = [], [], [], {}
@@ -101,6 +105,13 @@ def gb_run(spec, ops):
                 elif op[0] == "M":
                     rows = [m.samples() for m in ms]
                     a = ident(rows)
+                    if results:
+                        # circuit.final_state IS the result the last execution returned (its data)
+                        fs = c.final_state
+                        if fs is not results[-1] and not (
+                                np.array_equal(np.asarray(fs.samples()), np.asarray(results[-1].samples()))
+                                and fs.frequencies() == results[-1].frequencies() and fs.nshots == results[-1].nshots):
+                            fbad[len(out)] = "circuit.final_state does not hold the samples / frequencies of the result the last execution returned"
                     if a.startswith("r "):
                         e = int(a[2:])
                         for m, rr in zip(ms, rows):
@@ -190,7 +201,8 @@ def rand_spec(rng):
         regs = [qs[:cut], qs[cut:]]
     else:
         regs = [qs]
-    return {"n": n, "cnots": cn, "regs": regs, "dm": False}
+    return {"n": n, "cnots": cn, "regs": regs, "dm": False,
+            "hs": sorted(rng.sample(range(n), rng.randint(1, n))) if rng.random() < 0.5 else []}
 
 
 def replay(spec, ops):
@@ -232,6 +244,8 @@ def run_suites(ctx):
         cases.append((rand_spec(rng), kinds))
     # every history in both modes: state vectors and density matrices
     cases = [(dict(spec, dm=dmode), kinds) for spec, kinds in cases for dmode in (False, True)]
+    # ... and with circuit.compile() called before the first execution (every third history)
+    cases += [(dict(spec, compiled=True, hs=spec.get("hs") or [0]), kinds) for i, (spec, kinds) in enumerate(cases) if i % 3 == 0]
     lines, reals, bad_search = [], [], 0
     first_bad = None
     for spec, kinds in cases:
@@ -240,6 +254,8 @@ def run_suites(ctx):
         ctx.case(("gate-binding", json.dumps(spec), json.dumps(ops)))
         ctx.stat("gate_binding_ops", len(ops))
         ctx.stat("gate_binding_dm" if spec["dm"] else "gate_binding_sv")
+        if spec.get("compiled"):
+            ctx.stat("gate_binding_compiled")
         lines.append(model_line(rebind, ops))
         reals.append((spec, ops, " | ".join(out)))
         if bad:
@@ -250,7 +266,7 @@ def run_suites(ctx):
         spec, ops, bad = first_bad
         t, want, got = bad[0]
         has_prep = any(o[0] == "Q" for o in ops[: t + 1])
-        ctx.fail(KEY_PREP if has_prep else "gate-result:stale",
+        ctx.fail(KEY_PREP if has_prep else ("gate-result:compiled" if spec.get("compiled") else "gate-result:stale"),
                  f"the measurement result m = circuit.add(gates.M(...)) read after execution {want[2:]} "
                  f"({'the history contains an execution with a Circuit as initial state' if has_prep else 'plain executions only'}) "
                  f"does not show that execution: {got} (circuit {spec}, history {ops})",
